@@ -1,3 +1,2 @@
-import FluteModel.Drv.Util
--- stub: engine `wire` not built yet
-def main : IO Unit := Flute.Drv.runDriver () (fun _ _ => ((), "bad-op"))
+import FluteModel.Drv.Wire
+def main : IO Unit := Flute.Drv.runDriver () (fun _ args => ((), Flute.Drv.Wire.step args))
